@@ -273,6 +273,28 @@ def main():
         ck.note("inequality variables: {\"a\":\"?<n\",\"b\":\"?<n\"} over {\"a\":5,\"b\":3} with empty bindings gave %d distinct outcome(s) over 20 calls, each one the model's for a key order "
                 "(theorem ineq_repeated_var_order_dependent; repeated inequality variables are outside the documented fragment): %s" % (len(seen), sorted(seen)))
 
+    # the matcher as the service exposes it (/api/sys/util/match): same answer as core.Matches, whether the datum arrives as `fact`
+    # or as `event`, also for an empty fact, an empty pattern, and when both are given (then the fact counts)
+    svc = []
+    for k in range(300 if not ck.thorough else 6000):
+        d = gen.data(rng, depth=rng.randint(1, 3), width=rng.randint(1, 3), top_map=True)
+        pm = gen.pattern_from(rng, d, repeat_prob=0.0) if rng.random() < 0.85 else {}
+        if not isinstance(pm, dict) or not isinstance(d, dict): continue
+        if rng.random() < 0.12: d = {}
+        svc.append({"p": pm, "d": d, "as": rng.choice(["fact", "fact", "event", "both"])})
+    s_dir = run_cases(drv, [{"kind": "match", "p": c["p"], "d": c["d"], "bs": {}} for c in svc])
+    s_svc = run_cases(drv, [dict(c, kind="matchsvc") for c in svc])
+    classes["service_match_cases"] = len(svc)
+    nbad = 0
+    for c, a, b in zip(svc, s_dir, s_svc):
+        ck.count(dict(c, via="service"))
+        same = (("err" in a) == ("err" in b)) and (a.get("err") == b.get("err") if "err" in a else bss_multi(a) == bss_multi(b))
+        if not same:
+            nbad += 1
+            if nbad <= 3:
+                ck.violation("/api/sys/util/match (datum given as %s) answers %s, core.Matches answers %s" % (c["as"], canon(b)[:200], canon(a)[:200]),
+                             {"case": dict(c, kind="matchsvc"), "service": b, "direct": a}, tag="service")
+
     # known findings: replay the witnesses
     for f in kf:
         w = f["witness"]
